@@ -63,7 +63,13 @@ PROPS["C15"] = {"level": "exploration",
     "assumptions": ["tokens are built by the reference itself (own base64url/JSON/HMAC code); admission is known by construction, never by parsing", "claim times are kept >= 3 s away from every decision boundary (now, the 10 s issued-at leeway)", "in-process: hdsclient.Client.SetServerData plays the discovery service; which routes cmd/main.go puts behind the check is decided by the binary part (if present)"],
     "parts": [H("TestC15Auth", "inproc", 6000, 200000, qs=2, ts=16)]}
 
+PROPS["C09"] = {"level": "exploration",
+    "assumptions": ["part R: real goroutines and real time, test binary built with -race; the interleavings explored are whatever the Go scheduler produces (16 cores); a watchdog hit is inconclusive (exit 2), never a violation", "data races are those the race detector observes in these executions"],
+    "parts": [dict(H("TestC09Race", "R", 40, 400, qs=2, ts=16), race=True)]}
+
 META = {
+    "C09": {"text": "Randomised real-thread executions under the Go race detector: 2-16 concurrent clients in shared sessions, all modules, both through websocket.Handle with the production logging/metrics decorators (clients keep reading) and against bare handlers (higher contention); any race report, panic, unanswered request, or residue after all clients left fails the check. Exploration level: schedules are sampled, not enumerated.",
+            "design_ref": "DESIGN.md 4 (C09)", "note": "Trusted: Go's race detector; the client mix in harness/props/c09_test.go. Lock-granularity enumeration (scheduled driver) is a separate part when present.", "technique": "randomised concurrent stress generation (rapid-seeded) with the Go race detector and liveness/residue oracles"},
     "C15": {"text": "Stateful property test of both admission entry points (VerifyAuthTokenHandler, WebSocket handshake callback) against a by-construction reference: sequences of secret issuance/rotation/removal and token presentations (valid and every mutation class, all carriers and combinations, earlier token strings presented again after rotation). The inner handler must run exactly when the token is sound for the secret currently held; otherwise 401 and no handler code. Exploration level.",
             "design_ref": "DESIGN.md 4 (C15)", "note": "Trusted: the token builder/reference in harness/props/c15_test.go; golang-jwt and hagall-common are taken as given but are exercised, not modelled.", "technique": "stateful property-based testing (rapid) with a by-construction reference oracle"},
     "C19": {"text": "Four parts. verify: VerifyPayload against an independent reference (own Keccak-256 call, math/big secp256k1 recoverability) on valid triples and every single-field corruption, both directions. forward: the real HandleReceipts loop posting to an in-process credit service that is up, slow, drops the connection after reading, or is down - the multiset of POSTed bodies must equal the well-formed submissions, unchanged, once each. H/W: receipt-heavy histories against queues of capacity 1/2/128 that nobody drains - exactly one answer per submission (accepted / bad request / too busy), immediately, queue content == accepted receipts, connection stays usable.",
